@@ -18,7 +18,12 @@ same code moved into a private helper (any number of `return`s) all produce the 
     to be NaN (the caller states that assumption);
   * conditional expressions are lifted to `if` statements, calls of private helpers of the same
     class / module are lifted to temporaries and executed (callee paths multiply the caller's);
-  * anything else (loops, `with`, `try`, `assert`, unknown expression statements, starred targets)
+  * `try: … except KeyError / LookupError: …` (no `finally`) is read for the one exception that is modelled: a
+    keyed read `p[k]` of a watched parameter inside the protected statements forks the path into "k in p" and
+    "k not in p"; the second runs the handler in place of the rest of the protected block (`SymExec._try`).  A
+    lookup in the summarised loop's body whose handler is *outside* the loop ends the iteration in the leaf kind
+    `escape` (the exception leaves the loop: the caller's rule reports it).  Any other `try` fails closed;
+  * anything else (loops, `with`, `assert`, unknown expression statements, starred targets)
     raises AnalysisError: the caller fails closed.
 
 Two kinds of statements executed for their effect are read (everything else of that kind still fails closed):
@@ -98,7 +103,7 @@ def facts_of(c: Fact) -> tuple[Fact, ...]:
 
 @dataclass
 class Leaf:
-    kind: str  # fall | return | continue | break | raise
+    kind: str  # fall | return | continue | break | raise | escape (a caught exception leaves the summarised loop)
     facts: tuple[Fact, ...]
     env: Env
     value: Poly | None = None
@@ -131,6 +136,20 @@ class SumSpec:
     node: ast.AST
 
 
+@dataclass
+class TryFrame:
+    """One `try` whose protected statements are being executed: the handler a lookup error runs, and where
+    execution goes on after the statement."""
+    node: ast.Try
+    handler: ast.ExceptHandler
+    outer: tuple["TryFrame", ...]
+    depth: int      # len(fn_stack) where the `try` stands
+    in_loop: bool   # the `try` stands inside the summarised loop's body
+    nxt: Any
+    ctl: Any
+
+
+LOOKUP_ERRORS = {"KeyError", "LookupError"}
 COLLECT = {"append": "list", "add": "set"}
 # methods that change a set / dict / list in place
 INPLACE = ("pop", "popitem", "clear", "update", "setdefault", "__setitem__", "__delitem__", "add", "discard", "remove",
@@ -165,6 +184,8 @@ class SymExec:
         self.collapsing: list[tuple[str, str, ast.AST]] = []  # (collection, why multiplicity is lost, node)
         self._colls: dict[str, str] = {}
         self._coll_fn: FuncInfo | None = None
+        self._handlers: tuple[TryFrame, ...] = ()  # the `try` statements whose protected block is being executed
+        self.escape_to: dict[int, ast.Try] = {}  # id(statement of an `escape` leaf) -> the `try` that catches it
 
     # ------------------------------------------------------------------ values
     def mk(self, name: str, parts: tuple[Any, ...]) -> Poly:
@@ -466,6 +487,116 @@ class SymExec:
             return ("<=", b, a)
         raise AnalysisError(f"unsupported comparison {type(op).__name__}")
 
+    # ------------------------------------------------------------------ try / except of lookup errors
+    @staticmethod
+    def _caught(h: ast.ExceptHandler) -> set[str] | None:
+        """The exception class names a handler names (None: bare / not plain names)."""
+        t = h.type
+        elts = list(t.elts) if isinstance(t, ast.Tuple) else [t] if t is not None else []
+        names = {x.id if isinstance(x, ast.Name) else x.attr if isinstance(x, ast.Attribute) else "" for x in elts}
+        return names if names and "" not in names else None
+
+    def _try(self, s: ast.Try, env: Env, facts: tuple[Fact, ...], nxt: Any, ctl: Any) -> None:
+        fn = self.fn_stack[-1]
+        caught = [self._caught(h) for h in s.handlers]
+        if s.finalbody or not s.handlers or any(c is None or not c <= LOOKUP_ERRORS | {"IndexError"} for c in caught):
+            raise AnalysisError(f"{fn.qual}: unsupported statement `{u(s)[:60]}` (Try: only handlers of KeyError / "
+                                "LookupError without `finally` are read)")
+        handler = next((h for h, c in zip(s.handlers, caught) if c is not None and c & LOOKUP_ERRORS), None)
+        if handler is None:
+            raise AnalysisError(f"{fn.qual}: unsupported statement `{u(s)[:60]}` (Try without a KeyError handler)")
+        outer = self._handlers
+        frame = TryFrame(s, handler, outer, len(self.fn_stack), self._in_loop, nxt, ctl)
+        orelse = self.prep(list(s.orelse))
+
+        def after(e2: Env, f2: tuple[Fact, ...]) -> None:
+            # what follows the protected block (`else:` and the rest) is not protected by this `try`
+            cur = self._handlers
+            self._handlers = outer
+            try:
+                self._block(orelse, e2, f2, nxt, ctl)
+            finally:
+                self._handlers = cur
+
+        def out(kind: str, val: Poly | None, e2: Env, f2: tuple[Fact, ...], node: ast.AST) -> None:
+            # `return` / `continue` / `break` leave the protected block: what the enclosing executor goes on with
+            # (a helper's caller after `return`) is not protected by this `try` either
+            cur = self._handlers
+            self._handlers = outer
+            try:
+                ctl(kind, val, e2, f2, node)
+            finally:
+                self._handlers = cur
+
+        frame.ctl = out
+        self._handlers = outer + (frame,)
+        try:
+            self._block(self.prep(list(s.body)), env, facts, after, out)
+        finally:
+            self._handlers = outer
+
+    def _lookup_raises(self, s: ast.stmt, key: str, env: Env, facts: tuple[Fact, ...], ctl: Any) -> None:
+        """The path on which a keyed read in statement `s` (inside a protected block) finds no entry."""
+        frame = self._handlers[-1]
+        if self._in_loop and not frame.in_loop:
+            # the handler stands outside the loop: this iteration is the loop's last one
+            self.escape_to[id(s)] = frame.node
+            return ctl("escape", None, env, facts, s)
+        if len(self.fn_stack) != frame.depth:
+            raise AnalysisError(f"{self.fn_stack[-1].qual}: a lookup error raised in a helper is caught in its caller (shape not read)")
+        cur = self._handlers
+        self._handlers = frame.outer
+        try:
+            env2 = dict(env)
+            if frame.handler.name:
+                env2[frame.handler.name] = Poly.atom(f"KeyError({key})")
+            self._block(self.prep(list(frame.handler.body)), env2, facts, frame.nxt, frame.ctl)
+        finally:
+            self._handlers = cur
+
+    def _guard_lookups(self, s: ast.stmt, env: Env, facts: tuple[Fact, ...], ctl: Any) -> tuple[Fact, ...] | None:
+        """Inside a protected block: fork on every keyed read `p[k]` of a watched container that statement `s`
+        itself evaluates.  Returns the facts of the path on which every read succeeds (None: there is none)."""
+        if isinstance(s, (ast.Assign, ast.AnnAssign, ast.AugAssign, ast.Return, ast.Expr)):
+            roots = [s.value] if s.value is not None else []
+        elif isinstance(s, (ast.If, ast.Assert)):
+            roots = [s.test]
+        elif isinstance(s, ast.For):
+            roots = [s.iter]
+        else:
+            roots = []
+        fn = self.fn_stack[-1]
+        for root in roots:
+            lazy: set[int] = set()  # nodes that are evaluated only under a condition inside the expression
+            for n in ast.walk(root):
+                if isinstance(n, ast.BoolOp):
+                    lazy |= {id(x) for v in n.values[1:] for x in ast.walk(v)}
+                elif isinstance(n, ast.IfExp):
+                    lazy |= {id(x) for v in (n.body, n.orelse) for x in ast.walk(v)}
+                elif isinstance(n, (ast.Lambda, ast.ListComp, ast.SetComp, ast.DictComp, ast.GeneratorExp)):
+                    lazy |= {id(x) for x in ast.walk(n)} - {id(n)}
+            for n in ast.walk(root):
+                if not (isinstance(n, ast.Subscript) and isinstance(n.ctx, ast.Load)) or isinstance(n.slice, ast.Slice):
+                    continue
+                if id(n) in lazy:
+                    raise AnalysisError(f"{fn.qual}: a lookup inside `try` is evaluated conditionally: `{u(root)[:60]}`")
+                base = self.ev(n.value, env)
+                if self.parts(base, "tuple") is not None:
+                    continue
+                if self._rooted(base) is None:
+                    raise AnalysisError(f"{fn.qual}: lookup `{u(n)[:60]}` inside `try … except KeyError` is not read")
+                key, name = repr(self.ev(n.slice, env)), self._name_of(base)
+                present = ("in", key, name)
+                if present in facts:
+                    continue
+                if cneg(present) not in facts:
+                    self._lookup_raises(s, key, env, facts + (cneg(present),), ctl)
+                    facts = facts + (present,)
+                else:
+                    self._lookup_raises(s, key, env, facts, ctl)
+                    return None
+        return facts
+
     # ------------------------------------------------------------------ helper resolution
     def _helper(self, call: ast.Call) -> FuncInfo | None:
         fn = self.fn_stack[-1]
@@ -720,8 +851,8 @@ class SymExec:
         def hctl(kind: str, val: Poly | None, _e: Env, f2: tuple[Fact, ...], node: ast.AST) -> None:
             if kind == "return":
                 self._outside(h, lambda: on_value(val if val is not None else NONE, f2))
-            elif kind == "raise":
-                self._outside(h, lambda: ctl("raise", None, env, f2, node))
+            elif kind in ("raise", "escape"):
+                self._outside(h, lambda: ctl(kind, None, env, f2, node))
             else:
                 raise AnalysisError(f"{h.qual}: `{kind}` outside a loop")
 
@@ -791,6 +922,15 @@ class SymExec:
         nxt(env1, facts)
 
     def _stmt(self, s: ast.stmt, env: Env, facts: tuple[Fact, ...], nxt: Any, ctl: Any) -> None:  # noqa: C901
+        if isinstance(s, ast.Try):
+            return self._try(s, env, facts, nxt, ctl)
+        if self._handlers:
+            if isinstance(s, ast.Raise):
+                raise AnalysisError(f"{self.fn_stack[-1].qual}: `raise` inside a `try` (shape not read)")
+            guarded = self._guard_lookups(s, env, facts, ctl)
+            if guarded is None:
+                return None
+            facts = guarded
         if isinstance(s, ast.Pass):
             return nxt(env, facts)
         if isinstance(s, ast.FunctionDef) and not s.decorator_list:
@@ -918,6 +1058,11 @@ class EffectExec(SymExec):
         return c
 
     def _stmt(self, s: ast.stmt, env: Env, facts: tuple[Fact, ...], nxt: Any, ctl: Any) -> None:
+        if self._handlers and not isinstance(s, (ast.Try, ast.Raise)):
+            guarded = self._guard_lookups(s, env, facts, ctl)
+            if guarded is None:
+                return None
+            facts = guarded
         self._cur = facts  # every evaluation of a statement happens before its continuation runs
         if isinstance(s, ast.Expr) and isinstance(s.value, ast.Call) and not is_logging_call(s.value) \
                 and not self._is_helper_call(s.value):
